@@ -154,8 +154,11 @@ func genFormBody(r *hx.RNG, bad bool) []byte {
 func genMultipart(r *hx.RNG, binary bool, bad bool) (ct string, body []byte) {
 	var b bytes.Buffer
 	w := multipart.NewWriter(&b)
+	// never the writer's own (crypto/rand) boundary: all randomness derives from the seed
 	if r.Chance(1, 2) {
 		w.SetBoundary(pick(r, "B", "xyzBOUNDARY123", "----WebKitFormBoundary7MA4YWxkTrZu0gW"))
+	} else {
+		w.SetBoundary(fmt.Sprintf("%016x%016x", r.Uint64(), r.Uint64()))
 	}
 	n := r.Range(0, 4)
 	for i := 0; i < n; i++ {
@@ -566,6 +569,16 @@ func generate(cfg *hx.Config) {
 		}
 		m.cl = int64(len(m.body))
 		emit("coding", m)
+	}
+	// 4b. the JSON codecs directly, on values the logger never builds
+	for i := 0; i < 160*mult; i++ {
+		r := rng.Fork()
+		kind := []string{"PD", "CT", "PJ", "CJ"}[i%4]
+		in := genDirect(r, kind)
+		n++
+		cfg.Emit(hx.Case{Name: fmt.Sprintf("json%d", n), In: in, Out: runCase(in)})
+		cfg.Count("kind=" + kind)
+		cfg.Count("stream=json")
 	}
 	// 5. sizes up to 1 MiB (3 MiB thorough), binary, each framing
 	bigs := []int{262144, 1048576}
